@@ -32,8 +32,18 @@ TFault == /\ IsEv("Fault") /\ cur # <<>> /\ E.scenario = cur.scenario /\ UNCHANG
           /\ \/ ~E.hit
              \/ (E.hit /\ E.rv = "OK" /\ (Judge \in {"ok", "both"} => Stored))
              \/ (E.hit /\ E.rv # "OK" /\ (Judge \in {"err", "both"} => Nothing))
+\* A Torn event: the file of the object that was being created holds the first L bytes of what the call would have written.
+\* A cut inside an attribute record can only be a damaged file: the object must be ABSENT (everything else intact).  A cut
+\* between two records is what the as-built multi-step creation leaves anyway (deviations EmptyObject / PartialCreate).
+TTorn == /\ IsEv("Torn") /\ cur # <<>> /\ E.scenario = cur.scenario /\ UNCHANGED cur
+         /\ LET v == IF Required(cur.old, cur.new, E.rec) THEN "ok"
+                     ELSE IF E.boundary /\ WithEmptyObject(cur.old, cur.new, E.rec) THEN "EmptyObject"
+                     ELSE IF E.boundary /\ WithPartialCreate(cur.old, cur.new, E.rec) THEN "PartialCreate"
+                     ELSE "none" IN
+            /\ v = "ok" \/ v \in Dev
+            /\ (v # "ok" => PrintT(<<"DEV", v, E.scenario, E.L>>))
 TInit == l = 1 /\ cur = <<>> /\ TLCSet(1, 1)
-TNext == TLog \/ TCrash \/ TFault
+TNext == TLog \/ TCrash \/ TFault \/ TTorn
 TSpec == TInit /\ [][TNext]_tvars
 TrackMax == IF l > TLCGet(1) THEN TLCSet(1, l) ELSE TRUE
 TraceAccepted == PrintT(<<"MAXL", TLCGet(1)>>)
